@@ -956,4 +956,100 @@ theorem shared_parser_counterexample :
     decide +kernel
   · decide +kernel
 
+/-! ### 12. yaml TAG objects (`!jsonify` over a mapping / sequence, `!py`, `!sic`) as arguments
+
+  A tag object of a definition is an `obj` cell of the tag classes (`isTagClass`) with its payload under the
+  attribute `value` — for `!jsonify` a mapping / sequence OF THE DEFINITION ARENA.  Tag cells are not opaque to
+  formatting (`CellOf.isObj = false`), so `Sep.plain` / `PlainBlock` ADMIT them in definitions and configuration:
+  every theorem above (separation, `defs_unchanged`, interleaving, re-run) holds for definitions that carry tags,
+  and since paths lead through attributes (`Seg.attr`) the operation language contains the step that changes a
+  tag's payload in place (`context['body'].value['tags'].append(x)` = `appendAt [key body, attr value, key tags]`).
+  What makes it true: `Step.set_step_input_context`'s deep copy is deep THROUGH tag payloads (`copyArena` copies
+  the tag cell and shifts its `value` reference like any other).  `shallow_tag_copy_counterexample`: a copy that
+  hands the tag object back as it is ("tags never change: share" — `__deepcopy__` returning `self`) is not in the
+  fixed language, and the in-place step then writes into the definition. -/
+
+/-- `in_copy_deep_through_tag_payload`: after the `in` deep copy of ANY definition object (tags inside, at any
+    depth) separation still holds, no shared arena has changed, and every path from the bound key — through dict
+    keys, list indices AND object attributes (`.value`) — ends in the run's own region: what a later in-place
+    operation writes to is the run's own copy of the payload. -/
+theorem in_copy_deep_through_tag_payload {h : Heap} (hS : Sep h) (r : Nat) (key : String) (src : Ref) {e : Effect}
+    (he : effect h r (.inCopy key src) = some e) :
+    Sep (apply h r e) ∧ (∀ g, g.isShared = true → (apply h r e).arena g = h.arena g) ∧
+    ∀ (p : Path) (x : Ref), resolve (apply h r e) (root r) (.key key :: p) = some x → x.reg = .run r := by
+  have hL : Local r e := effect_local hS (op := .inCopy key src) rfl he
+  have hS' : Sep (apply h r e) := apply_sep hS hL
+  exact ⟨hS', fun g hg => apply_arena_other hL (shared_ne_run hg r), fun p x hx => reach_own hS' hx⟩
+
+/-- `tag_payload_write_is_own`: in any state reached by the fixed operation language from loaded definitions
+    (with tags), the object an in-place operation finds at the end of a path through a tag's `.value` is the
+    run's own; whatever it writes, every shared arena stays as loaded (`defs_unchanged`). -/
+theorem tag_payload_write_is_own {s : Sched} (hs : SchedFixed s) {st : State} (hS : Sep st.heap) (r : Nat)
+    (p q : Path) (k : String) (x : Ref)
+    (hx : resolve (exec s st).heap (root r) (p ++ .attr k :: q) = some x) :
+    x.reg = .run r ∧ ∀ g, g.isShared = true → (exec s st).heap.arena g = st.heap.arena g :=
+  ⟨reach_own (sep_invariant hs hS) hx, defs_unchanged hs hS⟩
+
+/-- Definition 0: a step `in: {body: !jsonify {kind: report, tags: [base]}, cfg: [!sic "x", !py "1+1"]}`.
+    cell 0 the `in` mapping, 1 the Jsonify tag object, 2 its payload mapping, 4 the list `tags`;
+    7 the list `cfg` with two tag objects whose payloads are atoms. -/
+def tagDefs : List Block :=
+  [[.dict [("body", 1), ("cfg", 7)], .obj "Jsonify" [("value", 2)], .dict [("kind", 3), ("tags", 4)],
+    .leaf (.str "report"), .list [5], .leaf (.str "base"), .leaf (.int 0),
+    .list [8, 10], .obj "SicString" [("value", 9)], .leaf (.str "x"), .obj "PyString" [("value", 11)],
+    .leaf (.str "1+1")]]
+
+def tagSt : State := State.loaded tagDefs [.dict []]
+
+/-- definitions with tag objects satisfy the hypotheses of every theorem of this file -/
+theorem tagSt_sep : Sep tagSt.heap := init_sep _ _ (by decide) (by decide)
+
+/-- One run: `Context({'tag': t})`; the step's `in` arguments arrive (`copy` = the `in` deep copy as it is, or a copy
+    that keeps the cells `keep` of the definition arena: `fmtSetAt … keep` — rebuilds every other container);
+    the step stamps the payload in place — `context['body'].value['tags'].append(tag)`; `in` is unset. -/
+def tagOps (keep : Option (List Nat)) (t : String) : List Op :=
+  [.start [.dict [("tag", 1)], .leaf (.str t)],
+   (match keep with
+    | none => .inCopy "body" ⟨.defn 0, 1⟩
+    | some ks => .fmtSetAt [] "body" ⟨.defn 0, 1⟩ ks),
+   .appendAt [.key "body", .attr "value", .key "tags"] [.leaf (.str t)],
+   .copyKey "body" "sent", .unsetIn "body"]
+
+theorem tagOps_fixed (t : String) : ∀ o ∈ tagOps none t, Op.fixed o = true := by
+  intro o ho
+  simp only [tagOps, List.mem_cons, List.mem_nil_iff, or_false] at ho
+  rcases ho with rfl | rfl | rfl | rfl | rfl <;> rfl
+
+/-- the general theorems on this example: three runs (tags a, b, a) in any fixed interleaving leave definition 0
+    as loaded -/
+example : (exec (solo 1 (tagOps none "a") ++ solo 2 (tagOps none "b") ++ solo 3 (tagOps none "a")) tagSt).heap.arena (.defn 0)
+    = tagSt.heap.arena (.defn 0) :=
+  defs_unchanged (SchedFixed.append (SchedFixed.append (schedFixed_solo (tagOps_fixed "a")) (schedFixed_solo (tagOps_fixed "b")))
+    (schedFixed_solo (tagOps_fixed "a"))) tagSt_sep (.defn 0) rfl
+
+/-- `shallow_tag_copy_counterexample`: the copy that SHARES the tag object (`keep = [1]`, the Jsonify cell:
+    "`__deepcopy__` returns self") — every plain container of `in` is still rebuilt — against the copy as it is. -/
+theorem shallow_tag_copy_counterexample :
+    let sched := fun keep => solo 1 (tagOps keep "a") ++ solo 2 (tagOps keep "b") ++ solo 3 (tagOps keep "a")
+    let shal := (exec (sched (some [1])) tagSt).heap
+    let shal1 := (exec (solo 1 (tagOps (some [1]) "a")) tagSt).heap
+    let full := (exec (sched none) tagSt).heap
+    Op.fixed (.fmtSetAt [] "body" ⟨.defn 0, 1⟩ [1]) = false ∧
+    -- shared tag: the context reaches the definition's tag object and its payload; the stamp lands in the definition
+    foreignReach 30 shal1 1 = [⟨.defn 0, 1⟩, ⟨.defn 0, 2⟩, ⟨.defn 0, 4⟩] ∧
+    resolve shal1 (root 1) [.key "sent", .attr "value", .key "tags"] = some ⟨.defn 0, 4⟩ ∧
+    shal1.arena (.defn 0) ≠ tagSt.heap.arena (.defn 0) ∧
+    deepVal 6 shal ⟨.defn 0, 4⟩ = .list [.str "base", .str "a", .str "b", .str "a"] ∧
+    -- … and run 3 (same initial context as run 1) does not end like run 1 did
+    deepVal 6 shal (root 3) ≠ deepVal 6 shal1 (root 1) ∧
+    -- sharing only tags whose payload is an atom (!sic / !py: cells 8 and 10) with no in-place step is unobservable
+    -- in the deep values; with the copy as it is nothing foreign is reachable at all:
+    full.arena (.defn 0) = tagSt.heap.arena (.defn 0) ∧
+    foreignReach 30 full 1 = [] ∧ foreignReach 30 full 3 = [] ∧
+    resolve full (root 1) [.key "sent", .attr "value", .key "tags"] = some ⟨.run 1, 6⟩ ∧
+    deepVal 6 full ⟨.run 1, 6⟩ = .list [.str "base", .str "a"] ∧
+    deepVal 6 full (root 3) = deepVal 6 full (root 1) ∧
+    deepVal 6 full ⟨.defn 0, 4⟩ = .list [.str "base"] := by
+  decide +kernel
+
 end Pypyr.C12
